@@ -105,7 +105,7 @@ impl Case<'_> {
         }
         match self.target {
             "chunker" => chunker_run(self.stream, self.block.unwrap_or(hcobs::DEFAULT_BLOCK_SIZE), self.sched, self.arena),
-            _ => reader_run(self.stream, self.block, self.sched, self.judge.unwrap_or(Judge::Std(usize::MAX, None))),
+            _ => reader_run(self.stream, self.block, self.sched, self.judge.unwrap_or(Judge::Std(usize::MAX, None)), self.arena),
         }
     }
 }
@@ -224,13 +224,20 @@ fn one_stream(rep: &mut Report, prop: &str, mode: Mode, stream: &[u8], blocks: &
                 } else {
                     judges(stream.len(), all_limits && matches!(sched, Sched::Full | Sched::Always(1)))
                 };
-                for judge in js {
+                for (ji, judge) in js.into_iter().enumerate() {
                     let case = Case { target: "reader", stream, block: *block, sched, judge: Some(judge), arena: ArenaState::Fresh };
                     if let Some(n) = judged(rep, prop, &case) {
                         if n > 0 {
                             rep.nontrivial += 1;
                         }
                         rep.outcome(hash_of(&(n, judge.render().len(), stream.len())));
+                    }
+                    // clients that consume what they were handed before asking for the next record
+                    if ji == 0 && matches!(sched, Sched::Full | Sched::Always(1)) && (all_limits || stream.len() > 16) {
+                        for client in [ArenaState::ReaderClientConsumesAll, ArenaState::ReaderClientConsumesHalf] {
+                            let case = Case { target: "reader", stream, block: *block, sched, judge: Some(judge), arena: client };
+                            judged(rep, prop, &case);
+                        }
                     }
                 }
             }
@@ -306,11 +313,11 @@ fn crash_histories(ctx: &Ctx, rep: &mut Report, mode: Mode, unit: &mut usize) {
     let blocks_small: Vec<Option<usize>> = vec![Some(1), Some(3), Some(64)];
     let mut streams = 0u64;
     for log in &logs {
+        // work units: the intact log is one; every truncation point and every corrupted position is
+        // one (a 2-record log of 253-byte payloads is 500 times the work of a short one)
         let u = *unit;
         *unit += 1;
-        if !ctx.owns(u) {
-            continue;
-        }
+        let owns_log = ctx.owns(u);
         // records separated (and preceded, for every other log) by the delimiter
         let mut bytes: Vec<u8> = Vec::new();
         let lead = log.iter().sum::<usize>() % 2 == 1;
@@ -323,14 +330,22 @@ fn crash_histories(ctx: &Ctx, rep: &mut Report, mode: Mode, unit: &mut usize) {
         let n = bytes.len();
         let long = n > 300;
         // the intact log, under every block size and the default
-        one_stream(rep, &prop, mode, &bytes, &[Some(0), Some(1), Some(2), Some(3), Some(64), Some(255), Some(256), None], 0, false, &ARENA_STATES[..1]);
-        streams += 1;
+        if owns_log {
+            one_stream(rep, &prop, mode, &bytes, &[Some(0), Some(1), Some(2), Some(3), Some(64), Some(255), Some(256), None], 0, false, &ARENA_STATES[..1]);
+            streams += 1;
+        }
         // truncated at every byte (crash), with and without a restarted writer
         let step = if long && ctx.tier == Tier::Quick { 7 } else { 1 };
         let mut cut = 0;
         while cut < n {
             let near_edge = cut < 8 || n - cut < 8 || (250..262).contains(&(cut % 258));
-            if step == 1 || near_edge || cut % step == 0 {
+            let selected = step == 1 || near_edge || cut % step == 0;
+            let mine = selected && {
+                let u = *unit;
+                *unit += 1;
+                ctx.owns(u)
+            };
+            if mine {
                 one_stream(rep, &prop, mode, &bytes[..cut], &blocks_small[..if long { 2 } else { 3 }], 0, false, &ARENA_STATES[..1]);
                 let mut restarted = bytes[..cut].to_vec();
                 restarted.extend_from_slice(&[0xFE, 0xFD]);
@@ -344,7 +359,13 @@ fn crash_histories(ctx: &Ctx, rep: &mut Report, mode: Mode, unit: &mut usize) {
         let mut pos = 0;
         while pos < n {
             let near_edge = pos < 6 || n - pos < 6 || (250..262).contains(&(pos % 258));
-            if !long || near_edge || (ctx.tier == Tier::Thorough && pos % 5 == 0) || pos % 37 == 0 {
+            let selected = !long || near_edge || (ctx.tier == Tier::Thorough && pos % 5 == 0) || pos % 37 == 0;
+            let mine = selected && {
+                let u = *unit;
+                *unit += 1;
+                ctx.owns(u)
+            };
+            if mine {
                 for v in [0xFEu8, 0xFD, 0xFF, 0x00] {
                     if bytes[pos] != v {
                         let mut c = bytes.clone();
@@ -356,7 +377,9 @@ fn crash_histories(ctx: &Ctx, rep: &mut Report, mode: Mode, unit: &mut usize) {
             }
             pos += 1;
         }
-        rep.state(hash_of(&("log", log)));
+        if owns_log {
+            rep.state(hash_of(&("log", log)));
+        }
     }
     // alignment-sensitive scanning: x^a . q . x^b
     let u = *unit;
@@ -643,10 +666,18 @@ fn run(ctx: &Ctx) -> Report {
     let mut unit = 0usize;
     match ctx.prop.as_str() {
         "C06" => {
+            let t0 = std::time::Instant::now();
             all_streams(ctx, &mut rep, Mode::Reader, &mut unit);
+            rep.count_max("max_stage_ms_all_streams", t0.elapsed().as_millis() as u64);
+            let t0 = std::time::Instant::now();
             crash_histories(ctx, &mut rep, Mode::Reader, &mut unit);
+            rep.count_max("max_stage_ms_crash_histories", t0.elapsed().as_millis() as u64);
+            let t0 = std::time::Instant::now();
             header_garbage(ctx, &mut rep, Mode::Reader, &mut unit);
+            rep.count_max("max_stage_ms_header_garbage", t0.elapsed().as_millis() as u64);
+            let t0 = std::time::Instant::now();
             edges(ctx, &mut rep, Mode::Reader, &mut unit);
+            rep.count_max("max_stage_ms_edges", t0.elapsed().as_millis() as u64);
         }
         "C08" => {
             all_streams(ctx, &mut rep, Mode::Chunker, &mut unit);
